@@ -5,6 +5,8 @@
 # to try a change to scion without touching /repo.  Remove with tools/rmworktree.sh <name>.
 set -e
 d=/tmp/wt-$1
+git -C /repo worktree remove --force "$d" >/dev/null 2>&1 || true
+rm -rf "$d"; git -C /repo worktree prune
 git -C /repo worktree add --detach "$d" HEAD >/dev/null 2>&1
-(cd /repo && git ls-files --others --exclude-standard | while read f; do mkdir -p "$d/$(dirname "$f")"; cp "$f" "$d/$f"; done)
+(cd /repo && git ls-files --others --exclude-standard | while read f; do mkdir -p "$d/$(dirname "$f")"; cp "$f" "$d/$f" 2>/dev/null || true; done)
 echo "$d"
